@@ -31,7 +31,8 @@ func c16Model() c16Table {
 		// the root and sometimes in the included file: a total that is not the sum
 		// over the files changes the order
 		Accounts:    map[string]int{"expenses:food": 4, "expenses:fuel": 2, "assets:cash": 4, "Assets:Bank account": 3, "расходы:еда": 1, "equity:opening": 1},
-		Payees:      map[string]int{"shop": 4, "shopping mall": 1, "Cafe": 3, "Åke": 2},
+		// "Cafe" is partly written as "Cafe | note"; "Bar (West) End" has a bracket in its name
+		Payees:      map[string]int{"shop": 4, "shopping mall": 1, "Cafe": 3, "Åke": 2, "Bar (West) End": 1},
 		Commodities: map[string]int{"EUR": 3, "USD": 4, "$": 1},
 		Tags:        map[string]int{"trip": 2, "kind": 1, "t2": 1},
 		TagValues:   map[string][]string{"trip": {"rome", "paris"}, "kind": {"x"}, "t2": {}},
@@ -53,13 +54,13 @@ func c16Journals() (root, inc string) {
 		"    expenses:food  1 USD",
 		"    assets:cash  -1 USD",
 		"",
-		"2001-01-04 Cafe",
+		"2001-01-04 Cafe | coffee",
 		"    expenses:fuel  1 EUR",
 		"    Assets:Bank account  -1 EUR",
 		"",
 	}
 	i := []string{
-		"2001-02-01 Cafe  ; trip:paris",
+		"2001-02-01 Cafe | cake  ; trip:paris",
 		"    expenses:fuel  2 EUR",
 		"    Assets:Bank account  -2 EUR",
 		"",
@@ -77,6 +78,8 @@ func c16Journals() (root, inc string) {
 		"    assets:cash  -1 USD",
 		"",
 		"2001-02-06 Åke",
+		"",
+		"2001-02-07 Bar (West) End",
 		"",
 	}
 	return strings.Join(r, "\n"), strings.Join(i, "\n")
@@ -265,7 +268,7 @@ func checkC16(c *core.Ctx) {
 		c16CheckResponse(c, model, env, c16Line{Context: cs.Context}, cs.Line, cs.Cursor, cs.Fragment, true, items, 0)
 		return
 	}
-	c.Bound("symbol table", "6 accounts, 4 payees, 3 commodities, 3 tags with 0-2 values; use counts with ties and strict orders; single file, root + included file, root + included file + workspace, root + two included files that are open with unsaved edits")
+	c.Bound("symbol table", "6 accounts, 5 payees (one partly written as payee | note, one with brackets in its name), 3 commodities, 3 tags with 0-2 values; use counts with ties and strict orders; single file, root + included file, root + included file + workspace, root + two included files that are open with unsaved edits")
 	c.Bound("configurations", "maxResults {1,2,3,5,50,200} x fuzzy on/off x counts on/off")
 	sampled := 0
 	envIdx := 0
@@ -322,6 +325,9 @@ func checkC16(c *core.Ctx) {
 				for _, frag := range frags {
 					if strings.ContainsAny(frag, ";") || strings.HasPrefix(frag, " ") {
 						continue
+					}
+					if ln.Context == "payee" && strings.HasPrefix(frag, "(") {
+						continue // after the date a leading bracket opens a transaction code, not a payee
 					}
 					line := ln.Prefix + frag
 					cursor := u16(line)
